@@ -491,7 +491,8 @@ def weave(repo='/repo', contracts='/verif/contracts', extra_modules=()):
     inline('lib.rs', 'lib', out, 0)
     # assemble + line map
     prelude = open(os.path.join(contracts, 'prelude.rs')).read()
-    buf = [CRATE_HEAD, 'pub mod vp {\nuse vstd::prelude::*;\n', prelude, '\n} // mod vp\nuse crate::vp::*;\n']
+    specs = open(os.path.join(contracts, 'specs.rs')).read()
+    buf = [CRATE_HEAD, 'pub mod vp {\nuse vstd::prelude::*;\n', prelude, '\n', specs, '\n} // mod vp\nuse crate::vp::*;\n']
     extra = ''
     for em in extra_modules:
         extra += '\n' + open(os.path.join(contracts, em)).read() + '\n'
